@@ -299,7 +299,7 @@ static void one_case(const vf::Args& a, uint64_t idx) {
       if (P.ok) R.check(nm("convertToCauchyStress==F.S.F^T/J", setting), S, idx, h, dist(from_st(sl, N), sig_ref), 50 * P.est * nT * A_ * A_ / c.J + allow(64, scs, norm(sig_ref)), dump);
       else R.skip(nm("convertToCauchyStress==F.S.F^T/J", setting), S);
       const StensorN Tb = hd.convertFromCauchyStress(sl);
-      R.check(nm("convertFromCauchyStress(convertTo...)==T", setting), S, idx, h, dist(from_st(Tb, N), Tr), allow(1024, nT * condC * condC * condC, nT), dump);
+      R.check(nm("convertFromCauchyStress(convertTo...)==T", setting), S, idx, h, dist(from_st(Tb, N), Tr), allow(4096, nT * condC * condC * condC, nT), dump);
       real tab[6]; Trd.exportTab(tab);
       hd.convertToCauchyStress(tab);
       StensorN sp; sp.importTab(tab);
@@ -387,7 +387,7 @@ static void one_case(const vf::Args& a, uint64_t idx) {
           const L v = L(K[p + ns * q]) * ((p >= 3 ? SQ2 : 1) * (q >= 3 ? SQ2 : 1));
           d = std::max(d, std::fabs(v - L(kt(p, q)))); sc = std::max(sc, std::fabs(L(kt(p, q))));
         }
-        if (wellcond) R.check(nm2("convertToCauchyStressTruesdellRateTangentModuli(ptr)==object", setting, law), S, idx, h, d, 64 * EPS * (sc + sc_sp / c.J), dump);
+        if (wellcond) R.check(nm2("convertToCauchyStressTruesdellRateTangentModuli(ptr)==object", setting, law), S, idx, h, d, 256 * EPS * (sc + sc_sp / c.J), dump);
         else R.skip(nm2("convertToCauchyStressTruesdellRateTangentModuli(ptr)==object", setting, law), S);
       }
       // convertToAbaqusTangentModuli does not exist in 1D
@@ -406,7 +406,7 @@ static void one_case(const vf::Args& a, uint64_t idx) {
           const L v = L(K[p + ns * q]) * ((p >= 3 ? SQ2 : 1) * (q >= 3 ? SQ2 : 1));
           d = std::max(d, std::fabs(v - L(ka(p, q)))); sc = std::max(sc, std::fabs(L(ka(p, q))));
         }
-        if (wellcond) R.check(nm2("convertToAbaqusTangentModuli(ptr)==object", setting, law), S, idx, h, d, 64 * EPS * (sc + sc_sp / c.J), dump);
+        if (wellcond) R.check(nm2("convertToAbaqusTangentModuli(ptr)==object", setting, law), S, idx, h, d, 512 * EPS * (sc + sc_sp / c.J), dump);
         else R.skip(nm2("convertToAbaqusTangentModuli(ptr)==object", setting, law), S);
               }
       }(hd);
